@@ -108,6 +108,11 @@ NETS = {
             ("lc", {"PS-C": 1}, 25.1),
         ],
     },
+    # N8: six stations, no constraint (event-order scenarios with many sessions)
+    "N8": {
+        "stations": {"PS-%d" % i: (("cont", 0, 32), 208, 0) for i in range(1, 7)},
+        "constraints": [],
+    },
     # N6: finite-rate EVSEs only (the sorted algorithms' decisions are then level choices, never bisection results)
     "N6": {
         "stations": {
@@ -255,6 +260,14 @@ class Scripted(BaseAlgorithm):
             return materialise(ent)
         net = self.interface._simulator.network
         L = p.get("len", 1)
+        if p.get("lookahead"):
+            # a look-ahead scheduler: test-charges the EV objects the (deprecated, but public) active_evs accessor
+            # hands out - documented to be copies, so the simulation must not notice
+            with warnings.catch_warnings():
+                warnings.simplefilter("ignore")
+                for ev in self.interface.active_evs:
+                    for _ in range(3):
+                        ev.charge(float(net._EVSEs[ev.station_id].max_rate), self.interface.evse_voltage(ev.station_id), self.interface.period)
         if p["rule"] == "max":  # every station (occupied or not) at its maximum pilot
             return {s: [float(net._EVSEs[s].max_rate)] * L for s in net.station_ids}
         if p["rule"] == "half":  # a level every EVSE class of the templates accepts
@@ -267,6 +280,8 @@ class Scripted(BaseAlgorithm):
             return {s: [[8.0, 16.0, 24.0, 32.0][(t + j - t0 + (i if p.get("skew") else 0)) % 4] for j in range(L)] for i, s in enumerate(sorted(net.station_ids))}
         if p["rule"] == "active-max":
             return {s.station_id: [float(net._EVSEs[s.station_id].max_rate)] * L for s in active_sessions}
+        if p["rule"] == "zeromax":  # 0 A in even periods, the maximum in odd ones (a delayed / pulsed start)
+            return {s: [0.0 if (t + j) % 2 == 0 else float(net._EVSEs[s].max_rate) for j in range(L)] for s in net.station_ids}
         if p["rule"] == "empty":
             return {}
         raise ValueError(p)
@@ -374,15 +389,20 @@ def horizon_of(scn):
     return (max(ts) if ts else 0)
 
 
-def build_sim(scn, algo=None, on_call=None, on_return=None, net_cls=MonNet, monitor=True, store_history=False, peek=False):
-    """scenario descriptor -> (sim, recorder, evs, periods-log)"""
+def build_sim(scn, algo=None, on_call=None, on_return=None, net_cls=MonNet, monitor=True, store_history=False, peek=False, reuse=None):
+    """scenario descriptor -> (sim, recorder, evs, periods-log); `reuse` maps session ids to EV objects of an
+    earlier run, which are reset() and used again instead of fresh ones"""
     net = build_network(scn["net"], scn.get("order"), scn.get("corder"), cls=net_cls, limits=scn.get("limits"), unnamed=bool(scn.get("unnamed")), hist=scn.get("hist"))
     evs = {}
     events = []
     order = scn.get("sorder") or range(len(scn["sessions"]))
     for i in order:
         s = scn["sessions"][i]
-        ev = make_ev(s)
+        if reuse is not None:
+            ev = reuse[s["sid"]]
+            ev.reset()
+        else:
+            ev = make_ev(s)
         evs[s["sid"]] = ev
         # "pt": the plug-in EVENT may carry another timestamp than the EV's nominal arrival (driver early / late)
         events.append(PluginEvent(s.get("pt", s["a"]), ev))
